@@ -231,6 +231,10 @@ pub struct Stream {
     pub faults: Vec<FaultAt>,
     /// the stream ends here although the document is longer (peer closed)
     pub eof_at: Option<u32>,
+    /// end of input is not sticky: once the source has reported the early end (`eof_at`) the
+    /// rest of the document becomes readable (a file that is still being written)
+    #[serde(default)]
+    pub revive: bool,
 }
 
 impl Stream {
@@ -243,6 +247,7 @@ impl Stream {
             grow: false,
             faults: vec![],
             eof_at: None,
+            revive: false,
         }
     }
 }
